@@ -271,7 +271,12 @@ pub fn execute(t: &Trace, stats: &mut Stats, record: bool) -> Outcome {
                 strict = false;
             }
             (OpResult::Err(k), _) => {
-                let expected = hard.first().copied().or(if zeroes > 0 { Some(io::ErrorKind::WriteZero) } else { None });
+                let acceptable = hard.contains(k) || (zeroes > 0 && *k == io::ErrorKind::WriteZero);
+                let expected = if acceptable {
+                    Some(*k)
+                } else {
+                    hard.first().copied().or(if zeroes > 0 { Some(io::ErrorKind::WriteZero) } else { None })
+                };
                 match expected {
                     Some(e) if e == *k => {}
                     Some(e) => {
@@ -300,6 +305,12 @@ pub fn execute(t: &Trace, stats: &mut Stats, record: bool) -> Outcome {
                 if *k != io::ErrorKind::Interrupted {
                     stopped = true;
                     strict = false;
+                    if fmt_keeps_going(&op) {
+                        // the Display impl kept writing after the failed fragment: what the
+                        // console holds now is the client's doing
+                        stats.probe("display_kept_writing_after_error");
+                        break;
+                    }
                 }
             }
             (other, kind) => {
